@@ -345,13 +345,13 @@ def r15j(ctx):
 
 
 def run(ctx):
+    ctx.guard(r15j)         # pointed rules first (see Ctx.guard)
     ctx.guard(r15f)
     ctx.guard(r15a)
     ctx.guard(r15b)
     ctx.guard(r15c)
     ctx.guard(r15d)
     ctx.guard(r15e)
-    ctx.guard(r15j)
 
 
 SELFTEST = {
